@@ -67,7 +67,7 @@ func VerifDiskStepFromState() {
 		return s
 	}
 	vmBuildState(h, nkeys)
-	steps := verif.Bound("steps", 1, 2)
+	steps := verif.Bound("steps", 1, 1)
 	for i := 0; i < steps; i++ {
 		h.nkeys = 1 // operation on key 0 (states are closed under renaming keys)
 		op := vmStructOps[verif.Choice("op", len(vmStructOps))]
@@ -149,7 +149,7 @@ func VerifDiskMetadataStep() {
 			h.m.blobs[0].md[kind] = vmMdVal{true, val}
 		}
 	}
-	steps := verif.Bound("steps", 1, 3)
+	steps := verif.Bound("steps", 1, 2)
 	for i := 0; i < steps; i++ {
 		h.step(vmMdOps, 3)
 		h.checkAllMd()
